@@ -38,6 +38,7 @@ func checkC20(r *core.Run) {
 			sfx = "@" + arch
 		}
 		c20Table(r, p, sfx, arch == "386")
+		c20ClassIndex(r, p, sfx)
 		if arch == "" {
 			c20Req(r, p)
 			c20Links(r, p)
@@ -607,4 +608,79 @@ func c20NullAware(s *ssa.Store) string {
 		}
 	}
 	return val
+}
+
+// c20ClassIndex: the size-to-class table. It has an entry for every size up to the largest slot size
+// (inclusive); entry s is the first class (classes are in ascending slot size, checked by the table rule)
+// whose slot size is >= s - an inclusive comparison, so a request that exactly fills a slot - in particular
+// the largest one - is not sent to a smaller class.
+func c20ClassIndex(r *core.Run, p *core.Program, sfx string) {
+	const rule = "R-C20-table"
+	fn := p.Func(c20Pkg + ".NewAllocator")
+	if fn == nil {
+		r.Fail(rule, "class-index"+sfx, "-", "NewAllocator not found")
+		return
+	}
+	var probs []string
+	// size of the table
+	okLen := false
+	nStore := 0
+	an.Instrs(fn, func(i ssa.Instruction) {
+		st, ok := i.(*ssa.Store)
+		if !ok {
+			return
+		}
+		ad := an.Expr(st.Addr)
+		switch {
+		case strings.HasSuffix(ad, ".classIdx"):
+			v := an.Expr(st.Val)
+			if strings.HasPrefix(v, "make((") && strings.HasSuffix(v, ".MaxSharedSize + 1))") {
+				okLen = true
+			}
+		case strings.Contains(ad, ".classIdx["):
+			nStore++
+			size := ad[strings.Index(ad, ".classIdx[")+len(".classIdx[") : len(ad)-1]
+			v := an.Expr(st.Val)
+			cls := strings.TrimSuffix(strings.TrimPrefix(v, "byte("), ")")
+			slot := "int(" + c20Pkg + ".sizeClassSlotSize[" + cls + "])"
+			cs := an.DomConds(st.Block())
+			incl := an.HasCond(cs, "("+size+" <= "+slot+")", true) || an.HasCond(cs, "("+slot+" >= "+size+")", true)
+			if !incl {
+				probs = append(probs, "entry "+size+" is set to class "+cls+" without the inclusive test 'size <= slot size of that class'")
+			}
+			// first match: leaving the inner loop after the store (the block's successor is not the inner loop head)
+			if len(st.Block().Succs) == 1 {
+				nx := st.Block().Succs[0]
+				inner := false
+				for _, dc := range cs {
+					if strings.Contains(dc.Cond, cls+" < builtin.len("+c20Pkg+".sizeClassSlotSize)") && dc.If.Block() == nx {
+						inner = true
+					}
+				}
+				if inner {
+					probs = append(probs, "the search does not stop at the first fitting class")
+				}
+			}
+		}
+	})
+	// MaxSharedSize is the last slot size
+	okMax := false
+	an.Instrs(fn, func(i ssa.Instruction) {
+		if st, ok := i.(*ssa.Store); ok && strings.HasSuffix(an.Expr(st.Addr), ".MaxSharedSize") {
+			if an.Expr(st.Val) == "int("+c20Pkg+".sizeClassSlotSize[(builtin.len("+c20Pkg+".sizeClassSlotSize) - 1)])" {
+				okMax = true
+			}
+		}
+	})
+	if !okLen {
+		probs = append(probs, "the table does not have MaxSharedSize+1 entries")
+	}
+	if !okMax {
+		probs = append(probs, "MaxSharedSize is not the slot size of the last class")
+	}
+	if nStore != 1 {
+		probs = append(probs, fmt.Sprintf("%d stores into the table, one expected", nStore))
+	}
+	sort.Strings(probs)
+	r.Check(len(probs) == 0, rule, "class-index"+sfx, p.Pos(fn.Pos()), "classIdx[s] = first class with slot size >= s, for every s up to the largest slot size", strings.Join(probs, "; "))
 }
